@@ -815,3 +815,8 @@ PROPS["C10"]["functions"].append("radix_engine::blueprints::resource::NonFungibl
                                  "internal_put are recorded effects on the liquid id set)")
 PROPS["C10"]["bounds"] += ("; non-fungible vault: a universe of 3 ids, each liquid, locked with any count <= 1000 or absent, "
                            "requests of 0..2 distinct ids")
+
+PROPS["C34"]["functions"].append("radix_transactions::validation::TransactionValidator::validate_message_v2 (with "
+                                 "MessageContentsV1::len, DecryptorsByCurveV2::{curve_type, number_of_decryptors})")
+PROPS["C34"]["bounds"] += ("; messages: every shape (none / plaintext text or bytes / encrypted with 0..2 decryptor groups), every "
+                           "length, decryptor count and limit <= 3000")
